@@ -4,6 +4,8 @@ import Swat4.Properties.C02
 import Swat4.Spec.ServerList
 import Swat4.Spec.ServerListExpected
 import Swat4.Gen.Facts
+import Swat4.Lemmas.BrowserEndToEnd
+import Swat4.Properties.C03
 /-!
 # C01 — Server-list replies decode to exactly the selected servers
 
@@ -226,7 +228,7 @@ example : WfReq exampleReq := ⟨by decide, by decide, by decide, by decide, by 
 
 example : knownFields Cfg.facts.isQueryField exampleReq = [Bytes.ofAscii "hostname", Bytes.ofAscii "numplayers"] := by decide
 
-def exampleInfo : Info :=
+def exampleInfo : Browsing.Info :=
   [.str [0x61, 0x00, 0x62], .int 10480, .str (Bytes.ofAscii "SWAT 4"), .str (Bytes.ofAscii "1.1"), .str (Bytes.ofAscii "CO-OP"), .int 3, .int 16, .str [],
    .bool false, .bool true, .int 0, .int 0, .int (-5), .int 0, .int 0, .int 0, .int 0, .int 0, .int 0, .int 0, .str [], .str []]
 
@@ -302,3 +304,423 @@ example : Swat4.C01.readBufferSize < (encodeReq exampleReqBig).length := by
   rw [exampleReqBig_length]; decide
 
 end NonVacuity
+
+/-! # End to end: the reply to request `r` lists exactly the servers `r.filter` selects (C01 ∘ C03)
+
+`C01_main` takes the selection as a parameter; C03 (`browser_listing_any`, `selection_eq_filter`) computes a
+selection from a registry.  `Lemmas/BrowserEndToEnd.lean` defines the composition the Go handler performs —
+`BrowserE2E.browserHandle`: 2048-byte read, `NewRequest`, the filter string's query (blank when empty or
+rejected), `listservers.Execute` with status `master`, `packServers`, `crypt.Encrypt` — over a registry of
+`BrowserE2E.Stored` servers (the filter model's `Record` plus IPv4, port and query port; `toSel` is the bridge
+to `Browsing.Server`, whose `Info` values are *computed from* the record the filter is evaluated on).
+
+**Listing order.**  The Go listing order is the iteration order of a Go map (`slice.Intersection` in
+`servers.Repository.Filter`) — arbitrary.  `browserHandle` takes it as the parameter `order`.
+`browser_end_to_end` is the statement for the filter model's order (`order := id`, registry order);
+`browser_end_to_end_any_order` is the statement for every `order` that permutes its argument: the reply lists
+a permutation of the matching servers.  The corollaries hold for every such order. -/
+namespace Swat4.C01
+open Swat4 Swat4.Browsing Swat4.SBList Swat4.BrowserE2E
+
+/-- what a stock client makes of a reply: the SDK cipher with the game key and the request's challenge, then
+the SDK framing decoder (the composition `C01_main` is stated with) -/
+def clientDecode (challenge : Vector UInt8 8) (reply : Bytes) (defaultPort : Nat) : Option ServerList :=
+  (GOA.refDecrypt Facts.gameEncKey challenge.toList reply).bind (fun plain => sdkDecode plain defaultPort)
+
+/-- the two spellings of the read-buffer size agree -/
+theorem readBuffer_eq : BrowserE2E.readBuffer = readBufferSize := rfl
+
+/-- **The bridge to C03, one server.**  The test the handler's use case applies to a stored server for the
+filter string `f` (`keeps`: refreshed-index range, status sets, `query.Match` of `browserQuery f`) is C03's
+declarative listing predicate (`matching` = `FilterSpec.selected` with status `master` and the clauses of `f`).
+Derived from C03's `browser_listing_any` on the one-record registry. -/
+theorem keeps_eq_matching (now liveness : Int) (f : Bytes) (x : Stored) :
+    keeps now liveness Facts.statusMaster (Filter.browserQuery f) x.row = matching now liveness f x := by
+  have h := C03.browser_listing_any [x.row] now liveness f
+  rw [listServers_eq_filter_keeps] at h
+  unfold matching clausesOf
+  simp only [List.filter_cons, List.filter_nil] at h
+  cases hk : keeps now liveness Facts.statusMaster (Filter.browserQuery f) x.row <;>
+    cases hs : FilterSpec.selected now liveness Facts.statusMaster
+      ((Filter.browserQuery f).map FilterSpec.ofFilter) (FilterSpec.toServer x.row) <;>
+    simp_all
+
+/-- **Selection, registry order**: the handler's listing for filter string `f` is the registry filtered by
+C03's predicate, in registry order -/
+theorem listing_eq_matching (recs : List Stored) (now liveness : Int) (f : Bytes) :
+    listStored id recs now liveness Facts.statusMaster (Filter.browserQuery f) =
+      recs.filter (matching now liveness f) := by
+  rw [listStored_id]
+  apply List.filter_congr
+  intro s _
+  exact keeps_eq_matching now liveness f s
+
+/-- **Selection, any order**: whatever order the repository returns its result in, the handler's listing is a
+permutation of the registry filtered by C03's predicate -/
+theorem listing_perm_matching (order : List Stored → List Stored) (horder : ∀ l, (order l).Perm l)
+    (recs : List Stored) (now liveness : Int) (f : Bytes) :
+    (listStored order recs now liveness Facts.statusMaster (Filter.browserQuery f)).Perm
+      (recs.filter (matching now liveness f)) := by
+  have h := listStored_perm order horder recs now liveness Facts.statusMaster (Filter.browserQuery f)
+  rw [listing_eq_matching] at h
+  exact h
+
+/-- the filter's clauses when the parser accepts the string: those it returned -/
+theorem clausesOf_parsed (s : Bytes) (fs : List Filter.Filter) (h : Filter.newFromString s = .ok fs) :
+    clausesOf s = fs.map FilterSpec.ofFilter := by
+  unfold clausesOf; rw [C03.wellformed_is_used s fs h]
+
+/-- the filter's clauses for a spelling `s` (lenient grammar, C03 `QueryText`) of the clause list `q`: `q` -/
+theorem clausesOf_text (s : Bytes) (q : List FilterSpec.Clause) (h : FilterSpec.QueryText s q) : clausesOf s = q := by
+  rw [clausesOf_parsed s _ (C03.parse_complete s q h), List.map_map]
+  conv => rhs; rw [← List.map_id q]
+  apply List.map_congr_left
+  intro c _
+  exact C03.ofFilter_toFilter c
+
+/-- a filter string the parser rejects contributes no clause (C03 `malformed_is_blank`) -/
+theorem clausesOf_malformed (s : Bytes) (e : Filter.ParseErr) (h : Filter.newFromString s = .error e) :
+    clausesOf s = [] := by
+  unfold clausesOf; rw [(C03.malformed_is_blank s e h).1]; rfl
+
+/-- the empty filter string contributes no clause -/
+theorem clausesOf_empty : clausesOf [] = [] := rfl
+
+/-- the common core of the end-to-end theorems: the reply for a well-formed request that fits the read buffer
+decodes to the promised list for the handler's own listing `listStored order …` -/
+theorem browser_end_to_end_listing (order : List Stored → List Stored) (r : ListRequest) (h : WfReq r)
+    (hfit : (encodeReq r).length ≤ readBufferSize)
+    (hk : 1 ≤ (knownFields Cfg.facts.isQueryField r).length ∧
+      (knownFields Cfg.facts.isQueryField r).length ≤ Cfg.facts.maxFields)
+    (recs : List Stored) (now liveness : Int) (client : Client) (rnd : Crypt.Rnd) (defaultPort : Nat)
+    (hrec : ∀ s ∈ listStored order recs now liveness Facts.statusMaster (Filter.browserQuery r.filter),
+      Shaped Facts.infoSchema s.row.info ∧ s.ip.toBytes ≠ lastServerMarker) :
+    ∃ reply, browserHandle order recs now liveness client rnd (encodeReq r) = .ok reply ∧
+      clientDecode r.challenge reply defaultPort =
+        some (expectedList Schema.facts client (knownFields Cfg.facts.isQueryField r)
+          ((listStored order recs now liveness Facts.statusMaster (Filter.browserQuery r.filter)).map toSel)) := by
+  have hparse := parse_encodeReq r h
+  rw [if_neg (by omega), if_neg (by omega)] at hparse
+  have e : (encodeReq r).take BrowserE2E.readBuffer = encodeReq r := List.take_of_length_le hfit
+  have hp : parseRequest Cfg.facts ((encodeReq r).take BrowserE2E.readBuffer) =
+      .ok { filters := r.filter, fields := knownFields Cfg.facts.isQueryField r, challenge := r.challenge } := by
+    rw [e]; exact hparse
+  rw [browserHandle_ok order recs now liveness client rnd (encodeReq r) _ hp]
+  have hwt : ∀ s ∈ (listStored order recs now liveness Facts.statusMaster (Filter.browserQuery r.filter)).map toSel,
+      WellTyped Schema.facts s.info := by
+    intro s hs
+    obtain ⟨x, hx, rfl⟩ := List.mem_map.1 hs
+    have := (hrec x hx).1
+    rw [schemas_agree.1] at this
+    exact wellTyped_infoVals _ _ this
+  have hip : ∀ s ∈ (listStored order recs now liveness Facts.statusMaster (Filter.browserQuery r.filter)).map toSel,
+      s.ip.toBytes ≠ lastServerMarker := by
+    intro s hs
+    obtain ⟨x, hx, rfl⟩ := List.mem_map.1 hs
+    exact (hrec x hx).2
+  exact C01_main_bounded r h hfit hk client _ hwt hip rnd defaultPort
+
+/-- **C01 ∘ C03, end to end, registry order.**  For every well-formed list request `r` of at most 2048 bytes
+with between one and `MaxAllowedNumberOfFields` known fields, every registry `recs`, clock value, liveness,
+requester address and 23 header draws — the matching servers being records of the `details.Info` shape and
+none of them having the all-ones address — the handler, given the bytes of `r`, replies; and the reply,
+decrypted by the stock SDK cipher with the game key and the request's challenge and decoded by the SDK framing
+rules, is exactly: the requester's IPv4 and `port % 65536`; the known fields of `r` in request order; one entry
+(IPv4, `uint16` query port, the stored value of every declared field as `params.Marshal` renders it, NULs
+dropped — `entryOf_eq`) per stored server that carries status `master`, was refreshed at or after
+`now − liveness` and satisfies every clause of `r.filter` (none when `r.filter` is empty or rejected) — exactly
+`recs.filter (matching now liveness r.filter)`, C03's predicate — in registry order (the filter model's order;
+for the Go order see `browser_end_to_end_any_order`); the end marker; nothing after it. -/
+theorem browser_end_to_end (r : ListRequest) (h : WfReq r)
+    (hfit : (encodeReq r).length ≤ readBufferSize)
+    (hk : 1 ≤ (knownFields Cfg.facts.isQueryField r).length ∧
+      (knownFields Cfg.facts.isQueryField r).length ≤ Cfg.facts.maxFields)
+    (recs : List Stored) (now liveness : Int) (client : Client) (rnd : Crypt.Rnd) (defaultPort : Nat)
+    (hrec : ∀ s ∈ recs, matching now liveness r.filter s = true →
+      Shaped Facts.infoSchema s.row.info ∧ s.ip.toBytes ≠ lastServerMarker) :
+    ∃ reply, browserHandle id recs now liveness client rnd (encodeReq r) = .ok reply ∧
+      clientDecode r.challenge reply defaultPort =
+        some (expectedList Schema.facts client (knownFields Cfg.facts.isQueryField r)
+          ((recs.filter (matching now liveness r.filter)).map toSel)) := by
+  have hl := listing_eq_matching recs now liveness r.filter
+  have := browser_end_to_end_listing id r h hfit hk recs now liveness client rnd defaultPort (by
+    intro s hs
+    rw [hl, List.mem_filter] at hs
+    exact hrec s hs.1 hs.2)
+  rw [hl] at this
+  exact this
+
+/-- **C01 ∘ C03, end to end, the Go listing order.**  As `browser_end_to_end`, for every order the repository may
+return its result in (`order` permutes its argument — Go map iteration): the reply decodes to the promised
+list for a listing that is a permutation of `recs.filter (matching now liveness r.filter)`. -/
+theorem browser_end_to_end_any_order (order : List Stored → List Stored) (horder : ∀ l, (order l).Perm l)
+    (r : ListRequest) (h : WfReq r) (hfit : (encodeReq r).length ≤ readBufferSize)
+    (hk : 1 ≤ (knownFields Cfg.facts.isQueryField r).length ∧
+      (knownFields Cfg.facts.isQueryField r).length ≤ Cfg.facts.maxFields)
+    (recs : List Stored) (now liveness : Int) (client : Client) (rnd : Crypt.Rnd) (defaultPort : Nat)
+    (hrec : ∀ s ∈ recs, matching now liveness r.filter s = true →
+      Shaped Facts.infoSchema s.row.info ∧ s.ip.toBytes ≠ lastServerMarker) :
+    ∃ (reply : Bytes) (listing : List Stored), browserHandle order recs now liveness client rnd (encodeReq r) = .ok reply ∧
+      listing.Perm (recs.filter (matching now liveness r.filter)) ∧
+      clientDecode r.challenge reply defaultPort =
+        some (expectedList Schema.facts client (knownFields Cfg.facts.isQueryField r) (listing.map toSel)) := by
+  have hp := listing_perm_matching order horder recs now liveness r.filter
+  obtain ⟨reply, h1, h2⟩ := browser_end_to_end_listing order r h hfit hk recs now liveness client rnd defaultPort (by
+    intro s hs
+    have hs' := hp.mem_iff.1 hs
+    rw [List.mem_filter] at hs'
+    exact hrec s hs'.1 hs'.2)
+  exact ⟨reply, _, h1, hp, h2⟩
+
+/-- the entries of the promised list are `entryOf` of the listed servers -/
+theorem expectedList_entries (client : Client) (fields : List Bytes) (listing : List Stored) :
+    (expectedList Schema.facts client fields (listing.map toSel)).entries = listing.map (entryOf fields) := by
+  unfold expectedList
+  simp only [List.map_map]
+  rfl
+
+/-- **Only matching servers are listed** (any listing order).  Every entry of the decoded reply is the entry
+of a stored server that carries status `master`, was refreshed at or after `now − liveness` and satisfies every
+clause of the request's filter.  So a server that fails any of the three conditions does not appear (unless a
+matching server has the very same IPv4, query port and field values — then the entry is that server's): the
+second conjunct. -/
+theorem browser_lists_only_matching (order : List Stored → List Stored) (horder : ∀ l, (order l).Perm l)
+    (r : ListRequest) (h : WfReq r) (hfit : (encodeReq r).length ≤ readBufferSize)
+    (hk : 1 ≤ (knownFields Cfg.facts.isQueryField r).length ∧
+      (knownFields Cfg.facts.isQueryField r).length ≤ Cfg.facts.maxFields)
+    (recs : List Stored) (now liveness : Int) (client : Client) (rnd : Crypt.Rnd) (defaultPort : Nat)
+    (hrec : ∀ s ∈ recs, matching now liveness r.filter s = true →
+      Shaped Facts.infoSchema s.row.info ∧ s.ip.toBytes ≠ lastServerMarker)
+    (reply : Bytes) (hreply : browserHandle order recs now liveness client rnd (encodeReq r) = .ok reply)
+    (dec : ServerList) (hdec : clientDecode r.challenge reply defaultPort = some dec) :
+    (∀ e ∈ dec.entries, ∃ s ∈ recs, matching now liveness r.filter s = true ∧
+      e = entryOf (knownFields Cfg.facts.isQueryField r) s) ∧
+    (∀ s, matching now liveness r.filter s = false →
+      (∀ s' ∈ recs, matching now liveness r.filter s' = true →
+        entryOf (knownFields Cfg.facts.isQueryField r) s' ≠ entryOf (knownFields Cfg.facts.isQueryField r) s) →
+      entryOf (knownFields Cfg.facts.isQueryField r) s ∉ dec.entries) := by
+  obtain ⟨reply', listing, h1, hp, h2⟩ :=
+    browser_end_to_end_any_order order horder r h hfit hk recs now liveness client rnd defaultPort hrec
+  rw [hreply] at h1
+  cases h1
+  rw [hdec] at h2
+  cases h2
+  have hall : ∀ e ∈ (expectedList Schema.facts client (knownFields Cfg.facts.isQueryField r) (listing.map toSel)).entries,
+      ∃ s ∈ recs, matching now liveness r.filter s = true ∧ e = entryOf (knownFields Cfg.facts.isQueryField r) s := by
+    intro e he
+    rw [expectedList_entries] at he
+    obtain ⟨s, hs, rfl⟩ := List.mem_map.1 he
+    have hs' := hp.mem_iff.1 hs
+    rw [List.mem_filter] at hs'
+    exact ⟨s, hs'.1, hs'.2, rfl⟩
+  refine ⟨hall, ?_⟩
+  intro s _ hne hmem
+  obtain ⟨s', hs', hm', he⟩ := hall _ hmem
+  exact hne s' hs' hm' he.symm
+
+/-- **Every matching server is listed, as often as it is stored** (any listing order).  The entry of every stored
+server that carries status `master`, was refreshed at or after `now − liveness` and satisfies every clause of the
+request's filter is in the decoded reply; the reply has exactly as many entries as there are matching servers;
+every entry value occurs exactly as often as there are matching servers with that entry; hence, when the matching
+servers have pairwise distinct entries (e.g. distinct IPv4 / query port pairs), each of them appears exactly once. -/
+theorem browser_lists_all_matching (order : List Stored → List Stored) (horder : ∀ l, (order l).Perm l)
+    (r : ListRequest) (h : WfReq r) (hfit : (encodeReq r).length ≤ readBufferSize)
+    (hk : 1 ≤ (knownFields Cfg.facts.isQueryField r).length ∧
+      (knownFields Cfg.facts.isQueryField r).length ≤ Cfg.facts.maxFields)
+    (recs : List Stored) (now liveness : Int) (client : Client) (rnd : Crypt.Rnd) (defaultPort : Nat)
+    (hrec : ∀ s ∈ recs, matching now liveness r.filter s = true →
+      Shaped Facts.infoSchema s.row.info ∧ s.ip.toBytes ≠ lastServerMarker)
+    (reply : Bytes) (hreply : browserHandle order recs now liveness client rnd (encodeReq r) = .ok reply)
+    (dec : ServerList) (hdec : clientDecode r.challenge reply defaultPort = some dec) :
+    (∀ s ∈ recs, matching now liveness r.filter s = true →
+      entryOf (knownFields Cfg.facts.isQueryField r) s ∈ dec.entries) ∧
+    dec.entries.length = (recs.filter (matching now liveness r.filter)).length ∧
+    (∀ e, dec.entries.count e =
+      ((recs.filter (matching now liveness r.filter)).map (entryOf (knownFields Cfg.facts.isQueryField r))).count e) ∧
+    (((recs.filter (matching now liveness r.filter)).map (entryOf (knownFields Cfg.facts.isQueryField r))).Nodup →
+      ∀ s ∈ recs, matching now liveness r.filter s = true →
+        dec.entries.count (entryOf (knownFields Cfg.facts.isQueryField r) s) = 1) := by
+  obtain ⟨reply', listing, h1, hp, h2⟩ :=
+    browser_end_to_end_any_order order horder r h hfit hk recs now liveness client rnd defaultPort hrec
+  rw [hreply] at h1
+  cases h1
+  rw [hdec] at h2
+  cases h2
+  rw [expectedList_entries]
+  have hpm := hp.map (entryOf (knownFields Cfg.facts.isQueryField r))
+  have hmem : ∀ s ∈ recs, matching now liveness r.filter s = true →
+      entryOf (knownFields Cfg.facts.isQueryField r) s ∈
+        (recs.filter (matching now liveness r.filter)).map (entryOf (knownFields Cfg.facts.isQueryField r)) :=
+    fun s hs hm => List.mem_map.2 ⟨s, List.mem_filter.2 ⟨hs, hm⟩, rfl⟩
+  refine ⟨fun s hs hm => hpm.mem_iff.2 (hmem s hs hm), ?_, fun e => hpm.count_eq e, ?_⟩
+  · rw [List.length_map]; exact hp.length_eq
+  · intro hnd s hs hm
+    rw [hpm.count_eq, hnd.count, if_pos (hmem s hs hm)]
+
+/-- **A filter string that does not parse lists all live reported servers** (any listing order).  When
+`query.NewFromString` rejects the request's filter string — for whatever reason — the handler still replies, and
+the reply decodes to the list of (a permutation of) ALL stored servers that carry status `master` and were
+refreshed at or after `now − liveness`: the filter degrades to no filtering, never to an error or an empty list. -/
+theorem browser_malformed_filter_lists_all_live (order : List Stored → List Stored) (horder : ∀ l, (order l).Perm l)
+    (r : ListRequest) (h : WfReq r) (hfit : (encodeReq r).length ≤ readBufferSize)
+    (hk : 1 ≤ (knownFields Cfg.facts.isQueryField r).length ∧
+      (knownFields Cfg.facts.isQueryField r).length ≤ Cfg.facts.maxFields)
+    (e : Filter.ParseErr) (hbad : Filter.newFromString r.filter = .error e)
+    (recs : List Stored) (now liveness : Int) (client : Client) (rnd : Crypt.Rnd) (defaultPort : Nat)
+    (hrec : ∀ s ∈ recs, FilterSpec.selected now liveness Facts.statusMaster [] (FilterSpec.toServer s.row) = true →
+      Shaped Facts.infoSchema s.row.info ∧ s.ip.toBytes ≠ lastServerMarker) :
+    ∃ (reply : Bytes) (listing : List Stored), browserHandle order recs now liveness client rnd (encodeReq r) = .ok reply ∧
+      listing.Perm (recs.filter fun s =>
+        FilterSpec.selected now liveness Facts.statusMaster [] (FilterSpec.toServer s.row)) ∧
+      clientDecode r.challenge reply defaultPort =
+        some (expectedList Schema.facts client (knownFields Cfg.facts.isQueryField r) (listing.map toSel)) := by
+  have hm : matching now liveness r.filter = fun s =>
+      FilterSpec.selected now liveness Facts.statusMaster [] (FilterSpec.toServer s.row) := by
+    funext s
+    unfold matching
+    rw [clausesOf_malformed r.filter e hbad]
+  have := browser_end_to_end_any_order order horder r h hfit hk recs now liveness client rnd defaultPort (by
+    rw [hm]; exact hrec)
+  rw [hm] at this
+  exact this
+
+/-- what "live reported" means, spelt out: the blank selection is "has the `master` bit and was refreshed at or
+after `now − liveness`" -/
+theorem selected_blank (now liveness : Int) (sv : FilterSpec.Server) :
+    FilterSpec.selected now liveness Facts.statusMaster [] sv = true ↔
+      sv.status &&& 2 = 2 ∧ ∃ t, sv.refreshedAt = .at t ∧ now - liveness ≤ t := by
+  unfold FilterSpec.selected
+  cases hr : sv.refreshedAt with
+  | zero => simp
+  | «at» t =>
+    simp [Facts.statusMaster, and_comm]
+    intro _
+    exact decide_eq_true_iff
+
+end Swat4.C01
+
+/-! ## non-vacuity of the end-to-end theorems: a concrete registry, request and decoded reply
+
+Four stored servers — one dead (refreshed before `now − liveness`), one live with no players (fails the filter),
+one live with three players refreshed exactly at `now − liveness` (matches; the bound is inclusive), one live
+with players but without the `master` status — and the request `\hostname\ping\numplayers` with the filter
+`numplayers>0`.  Everything below is evaluated by the kernel (`decide`), except the cipher: the 256-round key
+schedule is too slow for kernel evaluation, so the decoded reply is computed on the plaintext `packServers`
+produces (`plaintext_decodes`) and transferred to the encrypted reply by `browser_end_to_end` (`reply_decodes`). -/
+namespace Swat4.C01.E2EExample
+open Swat4 Swat4.Browsing Swat4.SBList Swat4.BrowserE2E
+
+/-- a record of the `details.Info` shape: the given host name and player count, every other field zero -/
+def info (host : String) (numplayers : Int) : Swat4.Info :=
+  Facts.infoSchema.map fun e =>
+    (e.1, if e.1 = Bytes.ofAscii "hostname" then Value.str (Bytes.ofAscii host)
+          else if e.1 = Bytes.ofAscii "numplayers" then Value.int numplayers
+          else match e.2 with
+            | 0 => Value.int 0
+            | 1 => Value.bool false
+            | _ => Value.str [])
+
+def dead : Stored := ⟨⟨"1.1.1.1:10480", 6, .at 800, info "dead" 5⟩, ⟨1, 1, 1, 1⟩, 10480, 10481⟩
+def empty : Stored := ⟨⟨"1.1.1.2:10480", 6, .at 950, info "empty" 0⟩, ⟨1, 1, 1, 2⟩, 10480, 10481⟩
+def busy : Stored := ⟨⟨"1.1.1.3:10480", 6, .at 900, info "busy" 3⟩, ⟨1, 1, 1, 3⟩, 10480, 75017⟩
+def unlisted : Stored := ⟨⟨"1.1.1.4:10480", 4, .at 990, info "unlisted" 7⟩, ⟨1, 1, 1, 4⟩, 10480, 10481⟩
+
+def registry : List Stored := [dead, empty, busy, unlisted]
+
+def req : ListRequest :=
+  { header := [0, 1, 3, 0, 0, 0, 0], gameName := Bytes.ofAscii "swat4", queryGame := Bytes.ofAscii "swat4", challenge := #v[1, 2, 3, 4, 5, 6, 0, 0xff], filter := Bytes.ofAscii "numplayers>0", rawFields := [Bytes.ofAscii "hostname", Bytes.ofAscii "ping", Bytes.ofAscii "numplayers"], withFields := false }
+
+def client : Client := ⟨⟨10, 0, 0, 9⟩, 70000⟩
+
+/-- what the client must see: its own address (port mod 65536), the two known fields, the one matching server
+with its query port mod 65536 and its stored host name and player count -/
+def seen : ServerList :=
+  { clientIp := [10, 0, 0, 9], clientPort := 4464, fields := [Bytes.ofAscii "hostname", Bytes.ofAscii "numplayers"],
+    entries := [{ ip := [1, 1, 1, 3], port := 9481, values := [Bytes.ofAscii "busy", Bytes.ofAscii "3"] }], trailing := [] }
+
+theorem req_wf : WfReq req := ⟨by decide, by decide, by decide, by decide, by decide, by decide⟩
+theorem req_fits : (encodeReq req).length ≤ readBufferSize := by decide
+theorem req_known : knownFields Cfg.facts.isQueryField req = [Bytes.ofAscii "hostname", Bytes.ofAscii "numplayers"] := by decide
+
+/-- the filter string parses to the one clause `numplayers > 0` -/
+example : clausesOf req.filter = [⟨Bytes.ofAscii "numplayers", .gt, .int 0⟩] := by decide
+
+/-- every stored record has the struct's shape and no server has the end-marker address (hypothesis `hrec`) -/
+theorem registry_ok : ∀ s ∈ registry, matching 1000 100 req.filter s = true →
+    Shaped Facts.infoSchema s.row.info ∧ s.ip.toBytes ≠ lastServerMarker := by decide
+
+/-- C03's predicate on the four servers: dead, not matching, matching, not `master` -/
+example : registry.map (matching 1000 100 req.filter) = [false, false, true, false] := by decide
+
+/-- the selection, computed by the model's own `Filter.listServers` -/
+example : (Filter.listServers (registry.map (·.row)) 1000 100 Facts.statusMaster (Filter.browserQuery req.filter)).map (·.addr) =
+    ["1.1.1.3:10480"] := by decide
+
+/-- the promised list for this registry and request is `seen` -/
+theorem expected_eq : expectedList Schema.facts client (knownFields Cfg.facts.isQueryField req)
+    ((registry.filter (matching 1000 100 req.filter)).map toSel) = seen := by decide
+
+/-- the model itself, up to the cipher: the plaintext `packServers` produces for the handler's own listing
+decodes (SDK framing) to `seen` — computed, not derived from the theorems -/
+theorem plaintext_decodes :
+    sdkDecode (packServers Schema.facts client [Bytes.ofAscii "hostname", Bytes.ofAscii "numplayers"]
+      ((listStored id registry 1000 100 Facts.statusMaster (Filter.browserQuery req.filter)).map toSel)) 0 = some seen := by
+  decide
+
+/-- `browser_end_to_end` on the concrete instance: for every 23 header draws the handler replies to the bytes of
+`req`, and the stock client decodes the reply to `seen` -/
+theorem reply_decodes (rnd : Crypt.Rnd) :
+    ∃ reply, browserHandle id registry 1000 100 client rnd (encodeReq req) = .ok reply ∧
+      clientDecode req.challenge reply 0 = some seen := by
+  have h := browser_end_to_end req req_wf req_fits (by rw [req_known]; decide) registry 1000 100 client rnd 0 registry_ok
+  rw [expected_eq] at h
+  exact h
+
+/-- the matching servers have pairwise distinct entries (hypothesis of the "exactly once" clause of
+`browser_lists_all_matching`) -/
+example : ((registry.filter (matching 1000 100 req.filter)).map
+    (entryOf (knownFields Cfg.facts.isQueryField req))).Nodup := by decide
+
+/-- a request whose filter string does not parse (`numplayers>`: nothing after the operator) -/
+def reqBad : ListRequest := { req with filter := Bytes.ofAscii "numplayers>" }
+
+theorem reqBad_wf : WfReq reqBad := ⟨by decide, by decide, by decide, by decide, by decide, by decide⟩
+theorem reqBad_rejected : Filter.newFromString reqBad.filter = .error .format := rfl
+
+/-- the two live `master` servers — with and without players — in registry order -/
+def seenAll : ServerList :=
+  { seen with entries := [{ ip := [1, 1, 1, 2], port := 10481, values := [Bytes.ofAscii "empty", Bytes.ofAscii "0"] },
+                          { ip := [1, 1, 1, 3], port := 9481, values := [Bytes.ofAscii "busy", Bytes.ofAscii "3"] }] }
+
+/-- `browser_malformed_filter_lists_all_live` on the concrete instance (registry order): the reply lists both
+live `master` servers -/
+theorem reply_decodes_malformed (rnd : Crypt.Rnd) :
+    ∃ reply, browserHandle id registry 1000 100 client rnd (encodeReq reqBad) = .ok reply ∧
+      clientDecode reqBad.challenge reply 0 = some seenAll := by
+  have hk : knownFields Cfg.facts.isQueryField reqBad = [Bytes.ofAscii "hostname", Bytes.ofAscii "numplayers"] := by decide
+  have h := browser_end_to_end reqBad reqBad_wf (by decide) (by rw [hk]; decide) registry 1000 100 client rnd 0 (by decide)
+  have e : expectedList Schema.facts client (knownFields Cfg.facts.isQueryField reqBad)
+      ((registry.filter (matching 1000 100 reqBad.filter)).map toSel) = seenAll := by decide
+  rw [e] at h
+  exact h
+
+/-- `browser_malformed_filter_lists_all_live` applies to `reqBad` (its hypothesis `hbad` is `reqBad_rejected`), here
+with the repository returning its result reversed (an `order` other than the registry's) -/
+example (rnd : Crypt.Rnd) :
+    ∃ (reply : Bytes) (listing : List Stored), browserHandle List.reverse registry 1000 100 client rnd (encodeReq reqBad) = .ok reply ∧
+      listing.Perm [empty, busy] ∧
+      clientDecode reqBad.challenge reply 0 =
+        some (expectedList Schema.facts client [Bytes.ofAscii "hostname", Bytes.ofAscii "numplayers"] (listing.map toSel)) := by
+  have hk : knownFields Cfg.facts.isQueryField reqBad = [Bytes.ofAscii "hostname", Bytes.ofAscii "numplayers"] := by decide
+  have h := browser_malformed_filter_lists_all_live List.reverse (fun l => List.reverse_perm l) reqBad reqBad_wf (by decide)
+    (by rw [hk]; decide) .format reqBad_rejected registry 1000 100 client rnd 0 (by decide)
+  have e : (registry.filter fun s =>
+      FilterSpec.selected 1000 100 Facts.statusMaster [] (FilterSpec.toServer s.row)) = [empty, busy] := by rfl
+  rw [e, hk] at h
+  exact h
+
+/-- with that order the model's own listing is `[busy, empty]` — not the registry's order, a permutation of it -/
+example : (listStored List.reverse registry 1000 100 Facts.statusMaster (Filter.browserQuery reqBad.filter)).map (·.row.addr) =
+    ["1.1.1.3:10480", "1.1.1.2:10480"] := by decide
+
+end Swat4.C01.E2EExample
